@@ -7,8 +7,9 @@
      all theorems of C08 apply again (no staging overflow, progress, ...).
    - C19_frame_end_is_reset: a call that returns 0 (frame complete, LZ4 or skippable) leaves
      the context exactly in a state produced by LZ4F_resetDecompressionContext.
-   - C19_reset_is_fresh (see below) : such a state behaves like a fresh context on every
-     further sequence of calls.
+   - C19_stops_at_frame_end: a call on a context at the start of a frame that returns 0 has
+     consumed exactly the bytes of the frame that Spec.frame_decode recognises at the start
+     of the input (nothing of what follows), whatever follows and whatever the capacity.
    - C19_getFrameInfo: on a valid header, consumes exactly LZ4F_headerSize = the size
      Spec.parse_desc consumes, reports parse_desc's fields, returns BHSize.
    - C19_getFrameInfo_error_unchanged: if it fails before/while a header is read, nothing is
@@ -22,7 +23,7 @@
    compressor model: C03/C07); the harness c19.py checks it on the real code. *)
 From Coq Require Import ZArith List Lia Bool.
 From LZ4V Require Import Spec.BlockSpec Spec.XXH32 Spec.FrameSpec Gen.Consts Model.FrameD Model.FrameCtx.
-From LZ4V Require Import Proofs.FrameDHeader Proofs.FrameDProofs Proofs.FrameDReuse Proofs.FrameCtxProofs.
+From LZ4V Require Import Proofs.FrameDHeader Proofs.FrameDProofs Proofs.FrameDReuse Proofs.FrameDSound Proofs.FrameCtxProofs.
 Import ListNotations.
 Local Open Scope Z_scope.
 
@@ -39,6 +40,19 @@ Theorem C19_frame_end_is_reset : forall bdec s src cap o,
   exists s0, fst (decompress bdec s src cap o) = reset s0.
 Proof. exact frame_end_is_reset. Qed.
 Print Assumptions C19_frame_end_is_reset.
+
+Theorem C19_stops_at_frame_end : forall bdec s0 data cap o,
+  wf s0 -> d_stage s0 = GetFrameHeader -> d_remaining s0 = 0 -> d_skip s0 = false ->
+  bytes_ok data = true -> 0 <= cap -> le_val (ztake 4 data) = FD_MAGICNUMBER ->
+  let r := snd (decompress bdec s0 data cap o) in
+  r_ret r = 0 -> zlen (r_out r) < 18446744073709551616 ->
+  exists content rest, frame_decode bdec (o_skip o) (d_hist s0) data = Some (content, rest) /\
+                       r_consumed r = zlen data - zlen rest.
+Proof.
+  intros bdec s0 data cap o H1 H2 H3 H4 H5 H6 H7 r H8 H9.
+  destruct (oneshot_sound bdec s0 data cap o H1 H2 H3 H4 H5 H6 H7 H8 H9) as (rest & E1 & E2). eauto.
+Qed.
+Print Assumptions C19_stops_at_frame_end.
 
 Theorem C19_getFrameInfo : forall bdec s m0 m1 m2 m3 rest d tl,
   d_stage s = GetFrameHeader ->
